@@ -126,8 +126,15 @@ static int line_to_instr(struct instr *instr_data, char *filtered_asm_str) {
   }
   // special case for push instruction with immediate
   // (used push imm16 or imm32 when immediate is greater than 0x7f)
-  if (NAME(instr_data->key, push) && instr_data->cons > MAX_SIGNED_8BIT)
+  // (a negative immediate that fits a sign-extended byte keeps the imm8 form;
+  // any other negative value is a sign-extended imm32)
+  if (NAME(instr_data->key, push) && instr_data->cons > MAX_SIGNED_8BIT &&
+      !IN_RANGE(instr_data->cons, NEG80BIT, NEG64BIT)) {
     instr_data->key++;
+    if (IN_RANGE(instr_data->cons, NEG32BIT + NEG32BIT_CHECK, NEG64BIT)) {
+      DO_NOT_PAD(instr_data->cons, instr_data->reduced_imm, MAX_UNSIGNED_32BIT);
+    }
+  }
   return EXIT_SUCCESS;
 }
 
